@@ -16,4 +16,7 @@ LEGS = [
 
 
 def run(ctx):
-    progworld.run_program(ctx, ["c09"], force={"gcm": True, "es": True})
+    nameless = ctx.tape.choose(4) == 3
+    if nameless:
+        ctx.stat("runs_with_nameless_exit_callables")
+    progworld.run_program(ctx, ["c09"], force={"gcm": True, "es": True, "nameless_exit": nameless})
